@@ -126,4 +126,15 @@ impl NotificationSink {
     pub fn verif_free(&self) -> (usize, usize) {
         self.verif_capacities()
     }
+
+    /// Identifier of the notification stream of this sink.
+    pub fn verif_stream_id(&self) -> usize {
+        self.stream_id()
+    }
+}
+
+/// Take the log of queue choices made by the `Connection` tasks polled on this thread:
+/// `(stream identifier, true = sync queue)` in the order the notifications were taken.
+pub fn take_pops() -> Vec<(usize, bool)> {
+    super::connection::VERIF_POPS.with(|log| std::mem::take(&mut *log.borrow_mut()))
 }
